@@ -13,13 +13,13 @@ cd /verif/mc
 ov='paths=["'"$M"'/r/cozy-chess","'"$M"'/r/types"]'
 CARGO_TARGET_DIR=$M/target cargo build --offline --profile chk -p mcx --config "$ov" >$M/build.log 2>&1 || { echo "BUILD FAILED"; tail -20 $M/build.log; git -C $W checkout -- .; exit 2; }
 need_rel=0; need_pext=0
-for id in "$@"; do case $id in C05|C19|C02|C06|C14) need_rel=1;; esac; case $id in C01|C05) need_pext=1;; esac; done
+for id in "$@"; do case $id in C05|C17|C18|C19|C02|C06|C14) need_rel=1;; esac; case $id in C01|C05) need_pext=1;; esac; done
 [ $need_rel = 1 ] && CARGO_TARGET_DIR=$M/target-rel cargo build --offline --release -p mcx --config "$ov" >>$M/build.log 2>&1
 [ $need_pext = 1 ] && CARGO_TARGET_DIR=$M/target-pext RUSTFLAGS="-C target-feature=+bmi2" cargo build --offline --profile chk -p mcx --features pext --config "$ov" >>$M/build.log 2>&1
 cd /verif
 for id in "$@"; do
   cfgs="mut-chk"
-  case $id in C05|C19|C02|C06|C14) cfgs="mut-chk mut-rel";; esac
+  case $id in C05|C17|C18|C19|C02|C06|C14) cfgs="mut-chk mut-rel";; esac
   case $id in C01|C05) cfgs="$cfgs mut-pext";; esac
   for cfg in $cfgs; do
     case $cfg in mut-chk) bin=$M/target/chk/mcx;; mut-rel) bin=$M/target-rel/release/mcx;; mut-pext) bin=$M/target-pext/chk/mcx;; esac
